@@ -11,7 +11,7 @@ from vlib.gen import graphs as H
 
 PID = "C09"
 TITLE = "Shortest paths are valid edge paths of minimum length"
-LEAN_MODULES = ["Mouette.Props.C09", "Mouette.Props.C09PathMesh", "Mouette.Props.C09Bridge", "Mouette.Props.C09Source", "Mouette.Props.C09Heap", "Mouette.Props.C09Forest"]
+LEAN_MODULES = ["Mouette.Props.C09", "Mouette.Props.C09PathMesh", "Mouette.Props.C09Bridge", "Mouette.Props.C09Source", "Mouette.Props.C09Heap", "Mouette.Props.C09Forest", "Mouette.Props.C09HeapQ", "Mouette.Props.C09Contract"]
 REQUIRED_THEOREMS = ["reach_run", "run_terminates", "path_valid", "dijkstra_optimal", "dijkstra_optimal_one",
                      "reachable_iff_walk", "vertex_set_path_valid", "vertex_set_nearest", "popOK_firstMin",
                      "border_path_nearest", "border_none_iff", "build_path_spec", "path_mesh_segments_are_edges",
@@ -32,7 +32,12 @@ REQUIRED_THEOREMS = ["reach_run", "run_terminates", "path_valid", "dijkstra_opti
                      "heap_unreachable_keyError", "source_heap_vertex_set_nearest", "bridge_connBuild_dups",
                      "source_all_translated_vertex_set", "source_shortest_path_dict",
                      # Euler-free forest facts of the predecessor table, packaged for C16 (Props/C09Forest.lean)
-                     "pred_forest_of_final", "dijkstra_pred_forest", "heap_pred_forest"]
+                     "pred_forest_of_final", "dijkstra_pred_forest", "heap_pred_forest",
+                     # round 7: CPython's Lib/heapq.py translated (Generated/C09HeapQ.lean) and bridged to the binary-heap model
+                     "heapq_is_model", "heapq_siftdown_is_bubbleUp", "queue_calls_heapq",
+                     "heapq_pop_ok", "heapq_push_heap",
+                     # round 7: the contract on mesh.edges / vertex_to_vertices / edge_id as a named structure (ConnContract)
+                     "contract_same_graph", "contract_same_paths"]
 
 # every function / method defined in the files the property is anchored in (mouette/processing/paths.py,
 # mouette/utils/priority_queue.py): translated = a Generated definition is produced from that body on every run and a bridge
@@ -48,6 +53,11 @@ SOURCE_MAP = {
     "mouette/utils/priority_queue.py::PriorityQueue.empty": "translated",
     "mouette/utils/priority_queue.py::PriorityQueue.get": "translated",
     "mouette/utils/priority_queue.py::PriorityQueue.push": "translated",
+    # not an anchor file of the property, but what the queue class calls: CPython's own Lib/heapq.py (heapq.__file__), translated in round 7
+    "cpython:Lib/heapq.py::heappush": "translated",
+    "cpython:Lib/heapq.py::heappop": "translated",
+    "cpython:Lib/heapq.py::_siftdown": "translated",
+    "cpython:Lib/heapq.py::_siftup": "translated",
     "mouette/utils/priority_queue.py::PriorityQueue.front": "out-of-scope: not used by paths.py (statement-level translation of the queue is property C20)",
     "mouette/utils/priority_queue.py::PriorityQueue.pop": "out-of-scope: alias of get, not used by paths.py (property C20)",
 }
@@ -56,15 +66,18 @@ TRUSTED = [
     "model Mouette/Model/Dijkstra.lean + PathMesh.lean: both Dijkstra loops, both back-tracking loops, build_path, the single-target "
     "shortcut, the border glue and the weight / argument tables are re-translated from the working tree on every run "
     "(Generated/C09Loop.lean, C09Glue.lean) and proved equal to the model (Props/C09Bridge, C09Source); hand-modelled and tied by the "
-    "correspondence of this run only: set(targets), vertex_to_vertices / edge_id (C01-C03), heapq (abstract pop contract), the "
+    "correspondence of this run only: vertex_to_vertices / edge_id / mesh.edges (C01-C03) — the exact contract used is the structure "
+    "ConnContract of Props/C09Contract.lean (edges sorted / in range / once each, edge_id(u,v) = e <-> edges[e] = keyify(u,v), vertex_to_vertices(v) = "
+    "other end points of the edges at v), under which both queries walk the same weighted graph (contract_same_graph); the "
     "coordinate lookup mesh.vertices[i] of build_path, numpy/Attribute indexing of custom weights",
     "round 5: the construction of the `connectivity` dict of dicts is translated too (connBuild) and proved equal to sinkAdj (adjOf edges) "
     "under the ONLY iteration-order assumption that a Python dict iterates in insertion order and an assignment to an existing key keeps "
     "its position (Model/ConnDict.lean), for meshes whose edges are pairwise different unordered pairs without loops and pairwise "
     "different targets (duplicated targets: bridge_connBuild_dups — the dict keeps the distinct targets)",
     "round 6: the four PriorityQueue use sites of both loops are bound to priority_queue.py as translated by property C20 "
-    "(Generated/C20PQ.lean -> Generated/C09Heap.lean); heapq itself is the binary-heap model Model/BinHeap.lean (C20 compares it pop by "
-    "pop with the real class); the heap invariant is carried by the loop invariant (Lemmas/C09Heap.lean), so heap_dijkstra_optimal, "
+    "(Generated/C20PQ.lean -> Generated/C09Heap.lean); round 7: heapq itself is CPython's Lib/heapq.py (heappush, heappop, _siftdown, _siftup of the "
+    "interpreter's own stdlib file, translated into Generated/C09HeapQ.lean and proved equal to Model/BinHeap.lean: heapq_is_model); trusted: "
+    "that the C accelerator _heapq computes what Lib/heapq.py computes (C20 also compares pop by pop with the real class); the heap invariant is carried by the loop invariant (Lemmas/C09Heap.lean), so heap_dijkstra_optimal, "
     "source_heap_vertex_set_nearest, source_all_translated_vertex_set have no hypothesis on the queue",
     "in the theorems of Props/C09 (older, still valid for every tie-breaking): heapq abstracted to 'pop returns some pending item of minimum priority' (theorems hold for every such pop)",
     "the graph handed to the model is the implementation's own mesh.edges (edge extraction itself is C01-C03); the oracle "
@@ -619,8 +632,8 @@ def search_on_break(rng, broken, mismatches):
 
 
 def translate():
-    from . import c09_translate, c09_glue
-    return c09_translate.translate() + c09_glue.translate()
+    from . import c09_translate, c09_glue, c09_heapq
+    return c09_translate.translate() + c09_glue.translate() + c09_heapq.translate()
 
 
 MANIFEST = {
